@@ -342,6 +342,13 @@ func vc02_shift() {
 	vassume(big >= 512)
 	_, err = int64Const(n).binaryOp(ast.OperatorLeftShift, int64Const(big))
 	vassert(err != nil, "huge-left-shift-count-is-an-error")
+	// counts that do not fit an int64 (big constants up to 2^64-1)
+	u := vsym_u64()
+	vassume(u >= 1<<63)
+	_, err = int64Const(n).binaryOp(ast.OperatorLeftShift, newIntConst(0).setUint64(u))
+	vassert(err != nil, "left-shift-count-beyond-int64-is-an-error")
+	_, err = newIntConst(n).binaryOp(ast.OperatorLeftShift, newIntConst(0).setUint64(u))
+	vassert(err != nil, "big-left-shift-count-beyond-int64-is-an-error")
 	vreach("end")
 }
 
